@@ -21,7 +21,7 @@ def _job(job):
     def call(w, it, f):
         wk = w.new_walker(cls, w.env)
         return it.call(it.getattr(wk, meth), [f])
-    res = proc.run_proc(shape, call, shape_pred=pred)
+    res = proc.run_proc(shape, call, shape_pred=pred, world_cls=proc.TypedWorld)
     return [(name, repr(shape), r.kind, str(r.detail), r.result) for r in res]
 
 
@@ -41,7 +41,7 @@ def _partition_job(job):
         whole = w.app("And" if top == "AND" else "Or", parts)
         v = proc.sc.validate(w, f, whole, facts, repr(shape))
         return proc.ProcResult(shape, v.kind, v.detail, proc.sc.node_str(w, whole))
-    res = proc.run_proc(shape, call, post=post)
+    res = proc.run_proc(shape, call, post=post, world_cls=proc.TypedWorld)
     return [(fn, repr(shape), r.kind, str(r.detail), r.result) for r in res]
 
 
@@ -49,7 +49,7 @@ def _prop_job(shape):
     def call(w, it, f):
         g = it.module_global(w.repo.modules["pysmt.rewritings"], "propagate_toplevel")
         return it.call(g, [f], {"env": w.env})
-    res = proc.run_proc(shape, call)
+    res = proc.run_proc(shape, call, world_cls=proc.TypedWorld)
     return [("propagate_toplevel", repr(shape), r.kind, str(r.detail), r.result) for r in res]
 
 
@@ -57,7 +57,7 @@ def _dist_job(shape):
     def call(w, it, f):
         wk = w.new_walker("pysmt.rewritings.TimesDistributor", w.env)
         return it.call(it.getattr(wk, "walk"), [f])
-    res = proc.run_proc(shape, call)
+    res = proc.run_proc(shape, call, world_cls=proc.TypedWorld)
     return [("times_distributor", repr(shape), r.kind, str(r.detail), r.result) for r in res]
 
 
